@@ -14,6 +14,9 @@ import (
 // carriesRef: values of this type can reference shared memory.
 func carriesRef(t types.Type) bool { return carriesRefD(t, 0) }
 
+// carries: in data-dependence mode every value is tracked, otherwise only reference-carrying ones.
+func (t *Taint) carries(ty types.Type) bool { return t.values || carriesRef(ty) }
+
 func carriesRefD(t types.Type, d int) bool {
 	if d > 6 {
 		return true
@@ -48,6 +51,9 @@ type taintWhy struct {
 type Taint struct {
 	p *Prog
 	// configuration
+	values     bool                         // data-dependence mode: track every value, through arithmetic and external calls too
+	scope      map[*ssa.Function]bool       // when set, only these functions take part (local dependence analysis)
+	Ctrl       map[*ssa.Function]bool       // data-dependence mode: functions with a branch on a derived value
 	rootValue  func(v ssa.Value) bool       // v itself is a root (e.g. of type *font.Font, a Global address)
 	quiet      func(f *ssa.Function) bool   // functions from which no flow leaves (calls / stores made there are ignored): init-only, constructors
 	sanitize   func(v ssa.Value) bool       // values that cut the flow (fresh copies)
@@ -71,7 +77,7 @@ type Taint struct {
 
 func NewTaint(p *Prog) *Taint {
 	return &Taint{p: p, tainted: map[ssa.Value]*taintWhy{}, fieldT: map[*types.Var]*taintWhy{}, globalT: map[*ssa.Global]*taintWhy{},
-		resultT: map[*ssa.Function]map[int]bool{}}
+		resultT: map[*ssa.Function]map[int]bool{}, Ctrl: map[*ssa.Function]bool{}}
 }
 
 func (t *Taint) mark(v ssa.Value, why *taintWhy) {
@@ -116,6 +122,15 @@ func localRoot(addr ssa.Value) *ssa.Alloc {
 func (t *Taint) Run() {
 	p := t.p
 	t.fns = p.ModFns()
+	if t.scope != nil {
+		var keep []*ssa.Function
+		for _, f := range t.fns {
+			if t.scope[f] {
+				keep = append(keep, f)
+			}
+		}
+		t.fns = keep
+	}
 	// seed roots
 	for _, f := range t.fns {
 		for _, prm := range f.Params {
@@ -210,15 +225,15 @@ func (t *Taint) flowInto(v ssa.Value, in ssa.Instruction) {
 			t.mark(x, why(""))
 		}
 	case *ssa.Field:
-		if carriesRef(x.Type()) {
+		if t.carries(x.Type()) {
 			t.mark(x, why(""))
 		}
 	case *ssa.Index:
-		if x.X == v && carriesRef(x.Type()) {
+		if x.X == v && t.carries(x.Type()) {
 			t.mark(x, why(""))
 		}
 	case *ssa.Lookup:
-		if x.X == v && carriesRef(x.Type()) {
+		if x.X == v && t.carries(x.Type()) {
 			t.mark(x, why(""))
 		}
 	case *ssa.Slice:
@@ -228,21 +243,27 @@ func (t *Taint) flowInto(v ssa.Value, in ssa.Instruction) {
 	case *ssa.UnOp:
 		if x.Op == token.MUL {
 			// load through a tainted address: the loaded value is derived if it can carry a reference
-			if carriesRef(x.Type()) {
+			if t.carries(x.Type()) {
 				t.mark(x, why(""))
 			}
+		} else if t.values {
+			t.mark(x, why(""))
 		}
 	case *ssa.Phi, *ssa.ChangeType, *ssa.Convert, *ssa.ChangeInterface, *ssa.MakeInterface, *ssa.SliceToArrayPointer:
-		if carriesRef(x.(ssa.Value).Type()) {
+		if t.carries(x.(ssa.Value).Type()) {
 			t.mark(x.(ssa.Value), why(""))
 		}
 	case *ssa.TypeAssert:
-		if carriesRef(x.Type()) {
+		if t.carries(x.Type()) {
+			t.mark(x, why(""))
+		}
+	case *ssa.BinOp:
+		if t.values {
 			t.mark(x, why(""))
 		}
 	case *ssa.Extract:
 		// only the tainted result indices (set by call handling); an Extract of a tainted tuple from a non-call (Lookup with ok, TypeAssert ok, range) carries it
-		if _, isCall := x.Tuple.(*ssa.Call); !isCall && carriesRef(x.Type()) {
+		if _, isCall := x.Tuple.(*ssa.Call); !isCall && t.carries(x.Type()) {
 			t.mark(x, why(""))
 		}
 	case *ssa.Range:
@@ -283,6 +304,21 @@ func (t *Taint) flowInto(v ssa.Value, in ssa.Instruction) {
 				m[i] = true
 			}
 		}
+	case *ssa.If:
+		// data-dependence mode: a branch on a derived value makes everything the function returns (and stores, see Ctrl)
+		// depend on it — coarse control dependence
+		if t.values && fn != nil && !t.Ctrl[fn] {
+			t.Ctrl[fn] = true
+			n := fn.Signature.Results().Len()
+			m := t.resultT[fn]
+			if m == nil {
+				m = map[int]bool{}
+				t.resultT[fn] = m
+			}
+			for i := 0; i < n; i++ {
+				m[i] = true
+			}
+		}
 	case ssa.CallInstruction:
 		if t.quiet != nil && t.quiet(fn) {
 			return
@@ -317,9 +353,14 @@ func (t *Taint) storeInto(addr ssa.Value, v ssa.Value, site ssa.Instruction) {
 			}
 		}
 		return
+	case *ssa.IndexAddr:
+		// element of a local array (composite literal under construction): loads of the array see it
+		if al := localRoot(a); al != nil {
+			t.markLoadsDeep(al, why, 0)
+		}
 	default:
-		// element of a container (IndexAddr), store through a loaded pointer, parameter pointee, ...: containers that are
-		// not themselves derived are not followed (documented assumption).
+		// element of a container (IndexAddr on a slice), store through a loaded pointer, parameter pointee, ...:
+		// containers that are not themselves derived are not followed (documented assumption).
 	}
 }
 
@@ -331,7 +372,7 @@ func (t *Taint) markLoadsOf(addr ssa.Value, why *taintWhy) {
 		return
 	}
 	for _, in := range *refs {
-		if u, ok := in.(*ssa.UnOp); ok && u.Op == token.MUL && u.X == addr && carriesRef(u.Type()) {
+		if u, ok := in.(*ssa.UnOp); ok && u.Op == token.MUL && u.X == addr && t.carries(u.Type()) {
 			t.mark(u, why)
 		}
 	}
@@ -349,7 +390,7 @@ func (t *Taint) markLoadsDeep(addr ssa.Value, why *taintWhy, d int) {
 	for _, in := range *refs {
 		switch x := in.(type) {
 		case *ssa.UnOp:
-			if x.Op == token.MUL && x.X == addr && carriesRef(x.Type()) {
+			if x.Op == token.MUL && x.X == addr && t.carries(x.Type()) {
 				t.mark(x, why)
 			}
 		case *ssa.FieldAddr:
@@ -436,16 +477,24 @@ func (t *Taint) flowCall(v ssa.Value, call ssa.CallInstruction) {
 			// elements are copied; references held by elements are not followed into the destination container
 		case "min", "max":
 		}
+		if t.values {
+			if val, ok := call.(ssa.Value); ok {
+				t.mark(val, &taintWhy{from: v, site: call})
+			}
+		}
 		return
 	}
 	if !c.IsInvoke() && c.Value == v {
 		// calling a tainted closure/function value: nothing flows by itself
 	}
 	for _, callee := range callees {
+		if t.scope != nil && callee.Blocks != nil && !t.scope[callee] {
+			continue
+		}
 		if callee.Blocks == nil {
-			// external: result may alias arguments for a few known functions
-			if t.extReturn != nil && t.extReturn(c) {
-				if val, ok := call.(ssa.Value); ok && carriesRef(val.Type()) {
+			// external: result may alias arguments for a few known functions (any argument in data-dependence mode)
+			if t.values || t.extReturn != nil && t.extReturn(c) {
+				if val, ok := call.(ssa.Value); ok && t.carries(val.Type()) {
 					t.mark(val, &taintWhy{from: v, note: "external call result", site: call})
 				}
 			}
@@ -510,7 +559,7 @@ func (t *Taint) buildIndex() *taintIndex {
 			for _, in := range b.Instrs {
 				switch x := in.(type) {
 				case *ssa.UnOp:
-					if x.Op != token.MUL || !carriesRef(x.Type()) {
+					if x.Op != token.MUL || !t.carries(x.Type()) {
 						continue
 					}
 					switch a := x.X.(type) {
@@ -525,11 +574,11 @@ func (t *Taint) buildIndex() *taintIndex {
 						ix.globalLoads[a] = append(ix.globalLoads[a], x)
 					}
 				case *ssa.Field:
-					if fld := fieldOf(x); fld != nil && carriesRef(x.Type()) {
+					if fld := fieldOf(x); fld != nil && t.carries(x.Type()) {
 						ix.fieldLoads[fld] = append(ix.fieldLoads[fld], x)
 					}
 				case *ssa.Call:
-					if !carriesRef(x.Type()) {
+					if !t.carries(x.Type()) {
 						continue
 					}
 					if _, isTuple := x.Type().(*types.Tuple); isTuple {
@@ -539,7 +588,7 @@ func (t *Taint) buildIndex() *taintIndex {
 						ix.callVals[callee] = append(ix.callVals[callee], callRes{x, 0, x})
 					}
 				case *ssa.Extract:
-					if c, ok := x.Tuple.(*ssa.Call); ok && carriesRef(x.Type()) {
+					if c, ok := x.Tuple.(*ssa.Call); ok && t.carries(x.Type()) {
 						for _, callee := range t.p.Callees(c) {
 							ix.callVals[callee] = append(ix.callVals[callee], callRes{x, x.Index, c})
 						}
